@@ -397,13 +397,20 @@ def run(ctx):
     # --- (0d) the declaration parser model (Declaration.lean composed with DeclParser.lean by the driver; theorems declaration_parse_pp /
     # declaration_parse_sound / object_declarator_may_be_initialized) <-> the real parser: `specifiers init-declarator-list ;` and function
     # definitions: which declarators may carry an initializer, typedef or variable declaration, which declarator makes a definition
-    DALPH = ["s", "typedef", "*", "(", ")", "[", "]", "3", "x", "c", ",", "=", "i", ";", "b"]
+    # `s` a type specifier keyword, `q` a specifier that is not a type specifier, `g` a tag declaration (`struct S { int m ; }`): the loop of
+    # parseDeclarationSpecifiers before and after a tag declaration (theorems one_type_specifier_anywhere / no_type_specifier_after_tag_declaration)
+    DALPH = ["s", "typedef", "q", "g", "*", "(", ")", "[", "]", "3", "x", "c", ",", "=", "i", ";", "b"]
+    SPECW = ("s", "typedef", "q", "g")
     DSHAPES = [["x"], ["*", "x"], ["*", "c", "x"], ["x", "[", "3", "]"], ["x", "[", "]"], ["x", "(", "s", ")"], ["x", "(", ")"], ["(", "x", ")"],
                ["(", "*", "x", ")", "(", "s", ")"], ["*", "x", "(", "s", ")"], ["(", "*", "x", "[", "3", "]", ")", "(", "s", ")"], ["x", "(", "s", "x", ",", "s", "*", ")"],
                ["(", "(", "*", "x", ")", ")", "(", ")"], ["(", "x", ")", "[", "3", "]"], ["*", "*", "x"], ["x", "(", "s", ")", "[", "3", "]"], ["(", "x", "(", "s", ")", ")"]]
 
     def gen_decl():
         sp = ["s"] * rng.randrange(1, 3)
+        if rng.random() < 0.3:
+            sp = ["g"] if rng.random() < 0.8 else rng.choice([["g", "s"], ["s", "g"], ["g", "g"]])
+        for _ in range(rng.choice([0, 0, 1, 1, 2, 3])):
+            sp.insert(rng.randrange(len(sp) + 1), "q")
         if rng.random() < 0.25:
             sp.insert(rng.randrange(len(sp) + 1), "typedef")
         if rng.random() < 0.07:
@@ -417,6 +424,8 @@ def run(ctx):
     dstrings = []
     for n_ in range(0, 4 if ctx.quick else 5):
         dstrings += [["s"] + list(p_) for p_ in _it.product(DALPH, repeat=n_)]
+        if n_ < 4:
+            dstrings += [["g"] + list(p_) for p_ in _it.product(DALPH, repeat=n_)]
     for _ in range(3000 if ctx.quick else 40000):
         t = gen_decl()
         dstrings.append(t)
@@ -444,20 +453,25 @@ def run(ctx):
             if w == "x" and prv in ("x", ")", "]", "3"): return False                           # juxtaposed identifiers: typedef-name guesses
             if w == "x" and nxt in ("*", "x", "c"): return False                                # an identifier in front of a declarator: a typedef name
             if w == "x" and prv == "," and t[:j].count("(") > t[:j].count(")"): return False     # an identifier as a whole parameter: a typedef name
-            if w == "s" and j and prv not in ("s", "typedef", "(", ","): return False            # a specifier after a declarator token
-            if w == "typedef" and j and prv not in ("s", "typedef"): return False
-            if w in ("s", "typedef") and prv in ("s", "typedef") and any(x not in ("s", "typedef") for x in t[:j]): return False   # a parameter has ONE specifier in the model
+            if w == "s" and j and prv not in SPECW + ("(", ","): return False                    # a specifier after a declarator token
+            if w == "typedef" and j and prv not in SPECW: return False
+            if w in ("q", "g") and any(x not in SPECW for x in t[:j]): return False              # only among the declaration's own specifiers
+            if w in SPECW and prv in SPECW and any(x not in SPECW for x in t[:j]): return False   # a parameter has ONE specifier in the model
         return True
     # a type specifier among the leading specifiers (with `typedef` alone the parser reads the first identifier as the type: a typedef name)
-    dstrings = [t for t in dstrings if modelled(t) and "s" in list(_it.takewhile(lambda w: w in ("s", "typedef"), t))]
+    def has_type(t):
+        return any(w in ("s", "g") for w in _it.takewhile(lambda w: w in SPECW, t))
+    dstrings = [t for t in dstrings if modelled(t) and has_type(t)]
     dstrings = [list(x) for x in dict.fromkeys(tuple(t) for t in dstrings)]
 
     def render_d(toks):
         out, seen_decl = [], False
         for j, w in enumerate(toks):
-            if w not in ("s", "typedef"):
+            if w not in SPECW:
                 seen_decl = True
-            if w == "s": out.append("int" if seen_decl or j == 0 or "int" in out else rng.choice(["int", "long", "unsigned", "char"]))
+            if w == "q": out.append(rng.choice(["const", "volatile", "static", "extern", "register", "_Alignas ( 8 )", "_Thread_local", "inline", "_Noreturn", "auto", "restrict"]))
+            elif w == "g": out.append(rng.choice(["struct S%d { int m ; }", "union S%d { int m ; long n ; }", "enum S%d { K%d }", "struct { int m%d ; }", "enum { K%d , L%d }"]).replace("%d", str(j)))
+            elif w == "s": out.append("int" if seen_decl or j == 0 or "int" in out else rng.choice(["int", "long", "unsigned", "char"]))
             elif w == "x": out.append("v%d" % j)
             elif w == "c": out.append(rng.choice(["const", "volatile"]))
             elif w == "i": out.append(rng.choice(["1", "{ 1 , 2 }", "0"]))
@@ -499,6 +513,8 @@ def run(ctx):
         def has_init(i):
             return any(recs[c][0].endswith("Initializer") or (recs[c][0].endswith("Declarator") and has_init(c)) for c in kids(i))
         nsp = len(re.findall(r"(\d+),\d+", lists[0])) if lists else 0
+        if kind in ("StructDeclaration", "UnionDeclaration", "EnumDeclaration"):
+            return "Tag"
         if kind == "IncompleteDeclaration":
             return "Incomplete %d" % nsp
         if kind in ("VariableAndOrFunctionDeclaration", "TypedefDeclaration"):
@@ -544,7 +560,7 @@ def run(ctx):
             if r_ < 0.4 and len(m_) > 1: del m_[min(j, len(m_) - 1)]
             elif r_ < 0.8: m_.insert(j, rng.choice(DALPH))
             else: m_[min(j, len(m_) - 1)] = rng.choice(DALPH)
-            if m_ and all(modelled(part) and "s" in list(_it.takewhile(lambda w: w in ("s", "typedef"), part)) for part in [m_]):
+            if m_ and all(modelled(part) and has_type(part) for part in [m_]):
                 ustrings.append(m_)
 
     def umodelled(t):
@@ -555,7 +571,7 @@ def run(ctx):
             if w in (";", "b"):
                 parts.append(cur); cur = []
         if cur: parts.append(cur)
-        return all(p_ == [";"] or (modelled(p_) and "s" in list(_it.takewhile(lambda w: w in ("s", "typedef"), p_))) for p_ in parts)
+        return all(p_ == [";"] or (modelled(p_) and has_type(p_)) for p_ in parts)
     ustrings = [list(x) for x in dict.fromkeys(tuple(t) for t in ustrings) if umodelled(list(x))]
     utexts = [render_d(t) for t in ustrings]
     ulines = ["2,1,0,2,%s a %s" % ("d" * 31, txt.encode().hex()) for txt in utexts]
@@ -840,7 +856,8 @@ def run(ctx):
                   "const int c_ = 1;", "volatile int v_;", "_Atomic int at_;", "_Atomic(int) at2_;", "_Noreturn void nr_(void);", "inline int in_(void);", "void *vp_;", "char ch_;", "short sh_;", "int i_;",
                   "long l_;", "signed si_;", "unsigned u_;", "float f_;", "double d_;", "_Bool b_;", "_Complex double cd_;", "double _Complex cd2_;", "struct S_ { int m; } s1_;",
                   "union U_ { int m; } u1_;", "enum E_ { A_ } e1_;", "_Alignas(8) int al_;", "_Alignas(double) char al2_[8];", "_Static_assert(1, \"ok\");", "int _Alignas(8) al3_;",
-                  "static _Alignas(16) char al4_[16];", "_Alignas(int) _Alignas(8) int al5_;", "long long ll_; unsigned char uc_;", "struct S_ *ps_;", "enum E_ e2_;", "const char *const cc_ = 0;"]
+                  "static _Alignas(16) char al4_[16];", "_Alignas(int) _Alignas(8) int al5_;", "long long ll_; unsigned char uc_;", "struct S_ *ps_;", "enum E_ e2_;", "const char *const cc_ = 0;",
+                  "int _Alignas(8) (*al6_)(int);", "_Alignas(8) int (al7_);", "int _Alignas(int) (al8_)[2];", "int _Alignas(8) (al9_);"]
     bd_lines = ["void bd%d(void) { %s }" % (j, d_) for j, d_ in enumerate(BLOCKDECLS)]
     bd_lines += ["void bf%d(void) { for (%s ; ) break; }" % (j, d_) for j, d_ in enumerate(x for x in BLOCKDECLS if "{" not in x and "typedef" not in x and "_Static_assert" not in x and "(void)" not in x)]
     bd_lines += ["void bl%d(int x) { if (x) { %s } else { L%d: ; %s } switch (x) { case 1: ; %s } }" % (j, d_, j, d_, d_) for j, d_ in enumerate(BLOCKDECLS[::3])]
